@@ -223,9 +223,9 @@ class SymExec:
         f = e.func
         # operator.gt(a, b) - directly or through a local bound to the function - is the comparison a > b
         opfn = None
-        if isinstance(f, ast.Name) and f.id in st.locals and st.locals[f.id][0] == 'attr' and st.locals[f.id][1] == ('free', 'operator'):
+        if isinstance(f, ast.Name) and f.id in st.locals and st.locals[f.id][0] == 'attr' and st.locals[f.id][1][0] == 'free' and self._is_operator_module(st.locals[f.id][1][1]):
             opfn = st.locals[f.id][2]
-        elif isinstance(f, ast.Attribute) and isinstance(f.value, ast.Name) and f.value.id == 'operator' and 'operator' not in st.locals:
+        elif isinstance(f, ast.Attribute) and isinstance(f.value, ast.Name) and f.value.id not in st.locals and self._is_operator_module(f.value.id):
             opfn = f.attr
         if opfn in _OPERATOR_CMP and len(args) == 2 and not kwargs:
             return ('cmp', _OPERATOR_CMP[opfn], args[0], args[1])
@@ -284,6 +284,25 @@ class SymExec:
         st.calls.append((name, args))
         st.events.append(('call', name))
         return ('call', name, args, kwargs)
+
+    def _is_operator_module(self, name):
+        """`name` is the standard `operator` module in the module of the class under analysis (import operator [as name])"""
+        if name == 'operator':
+            return True
+        cache = getattr(self, '_opnames', None)
+        if cache is None:
+            cache = set()
+            try:
+                tree = self.repo.module(self.cls[0]).tree
+                for st_ in tree.body:
+                    if isinstance(st_, ast.Import):
+                        for al in st_.names:
+                            if al.name == 'operator':
+                                cache.add(al.asname or 'operator')
+            except Exception:
+                pass
+            self._opnames = cache
+        return name in cache
 
     def _cur_cls(self, st):
         return st.locals.get('__class__', self.cls)
